@@ -179,6 +179,52 @@ func runOne(base string, i int, t trans) (rec, error) {
 	return r, err
 }
 
+// runBatch applies the creation of the Ingress (row from) and its change (row to) within one batch.
+func runBatch(base string, i int, t trans) (rec, error) {
+	r := rec{ID: fmt.Sprintf("b%d", i), From: t.From, To: t.To, Kind: "batch", Delivery: "none"}
+	opt := pipeline.Options{WatchWithoutClass: t.To.WW, ClassPrecedence: t.To.Prec}
+	w, err := world.New(base, nil, opt)
+	if err != nil {
+		return r, err
+	}
+	defer w.Close()
+	p := w.P
+	p.Apply(kobj.Service("d", "app", nil, ":8080:8080"))
+	p.Apply(kobj.Endpoints("d", "app", []string{"10.1.0.1:p"}, nil, ":8080"))
+	other := kobj.Ingress("d", "other", 0, nil, nil, []kobj.Rule{{Host: "other.local", Paths: []kobj.Path{{Path: "/", Svc: "app", Port: "8080"}}}}, nil, nil)
+	other.Annotations["kubernetes.io/ingress.class"] = "haproxy"
+	p.Apply(other)
+	applyClass(p, t.From.Cls)
+	if _, err := p.ReconcilePending(false); err != nil {
+		return r, err
+	}
+	val := p.Svc.GetIsValidResource()
+	from, to := ingressOf(t.From), ingressOf(t.To)
+	p.Apply(from)
+	r.ValidFrom = val.IsValidIngress(from)
+	applyClass(p, t.To.Cls)
+	p.Apply(to)
+	r.ClassChanged = t.From.Cls != t.To.Cls
+	if _, err := p.ReconcilePending(false); err != nil {
+		return r, err
+	}
+	r.ValidTo = val.IsValidIngress(to)
+	list, err := p.Svc.VerifCache().GetIngressList()
+	if err != nil {
+		return r, err
+	}
+	for _, x := range list {
+		if x.Namespace+"/"+x.Name == "d/i1" {
+			r.Listed = true
+		}
+	}
+	if r.Configured, err = configured(w); err != nil {
+		return r, err
+	}
+	r.FreshConfigured = r.Listed // not re-run here: the fresh controller is covered by the single-step record
+	return r, nil
+}
+
 func main() {
 	in := flag.String("in", "", "transitions (json)")
 	outf := flag.String("out", "", "ndjson")
@@ -195,8 +241,8 @@ func main() {
 		fmt.Fprintln(os.Stderr, err)
 		os.Exit(2)
 	}
-	recs := make([]rec, len(ts))
-	errs := make([]error, len(ts))
+	recs := make([]rec, 2*len(ts))
+	errs := make([]error, 2*len(ts))
 	var wg sync.WaitGroup
 	sem := make(chan struct{}, 16)
 	for i := range ts {
@@ -206,18 +252,19 @@ func main() {
 			defer wg.Done()
 			defer func() { <-sem }()
 			recs[i], errs[i] = runOne(*work, i, ts[i])
+			recs[len(ts)+i], errs[len(ts)+i] = runBatch(*work, i, ts[i])
 		}(i)
 	}
 	wg.Wait()
 	f, _ := os.Create(*outf)
 	defer f.Close()
 	enc := json.NewEncoder(f)
-	for i := range ts {
+	for i := range recs {
 		if errs[i] != nil {
 			fmt.Fprintln(os.Stderr, strings.TrimSpace(errs[i].Error()))
 			os.Exit(2)
 		}
 		_ = enc.Encode(recs[i])
 	}
-	fmt.Printf("{\"transitions\":%d}\n", len(ts))
+	fmt.Printf("{\"transitions\":%d}\n", len(recs))
 }
